@@ -314,9 +314,11 @@ def r5(ctx):
         for nm, c in (("ack_trade", ack[0]), ("send_notifications", snd[0])):
             g = b.guard(c[0])
             somes = [a for conj in g for a in conj if a[0] == "is" and a[2] == frozenset(["Some"]) and "open_order" in render(a[1])]
-            ctx.check("MockExchange::run:OpenOrder:" + nm, bool(somes) and b.dominates(ob, c[0]),
-                      "performed exactly when open_order returned notifications", sites=[c[1]["sp"]],
-                      got=render_guard(g)[-200:], key="iff-some")
+            other = sorted(set(mir.render_atom(a)[:100] for conj in g for a in conj
+                               if a not in somes and not (a[0] == "is" and (a[2] <= {"OpenOrder", "Some", "Ready"}))))
+            ctx.check("MockExchange::run:OpenOrder:" + nm, bool(somes) and b.dominates(ob, c[0]) and not other,
+                      "performed exactly when open_order returned notifications (no other condition)", sites=[c[1]["sp"]],
+                      got={"guard": render_guard(g)[-200:], "other": other}, key="iff-some")
         ctx.check("MockExchange::run:OpenOrder:ack_trade", "open_order" in render(ack[0][2][2][1]) and "trade" in render(ack[0][2][2][1]),
                   "the acknowledged trade is the accepted order's trade", got=render(ack[0][2])[:200], key="trade")
     # the spawned notifier sends balance then trade, once each
